@@ -647,6 +647,20 @@ struct FnInfo {
     generics: String,
     where_clause: String,
     has_mut_ref: bool,
+    closures: usize,
+}
+
+/// counts the closure expressions of a body (a closure without a specification is opaque to the verifier)
+struct ClosureCounter {
+    n: usize,
+}
+
+impl VisitMut for ClosureCounter {
+    fn visit_expr_closure_mut(&mut self, c: &mut syn::ExprClosure) {
+        self.n += 1;
+        visit_mut::visit_expr_closure_mut(self, c);
+    }
+    fn visit_item_fn_mut(&mut self, _i: &mut syn::ItemFn) {}
 }
 
 struct LoopMarker {
@@ -708,7 +722,7 @@ fn mark_fn(qual: &str, sig: &mut syn::Signature, block: Option<&mut syn::Block>,
     });
     let mut info = FnInfo { name: qual.to_string(), line, loops: vec![], has_ret: false, ret_name: String::new(), trait_impl, has_body: block.is_some(),
         params: sig.inputs.to_token_stream().to_string(), generics: sig.generics.to_token_stream().to_string(),
-        where_clause: sig.generics.where_clause.as_ref().map(|w| w.to_token_stream().to_string()).unwrap_or_default(), has_mut_ref };
+        where_clause: sig.generics.where_clause.as_ref().map(|w| w.to_token_stream().to_string()).unwrap_or_default(), has_mut_ref, closures: 0 };
     if let ReturnType::Type(..) = &sig.output {
         info.has_ret = true;
     }
@@ -723,6 +737,9 @@ fn mark_fn(qual: &str, sig: &mut syn::Signature, block: Option<&mut syn::Block>,
         }
     }
     if let Some(b) = block {
+        let mut cc = ClosureCounter { n: 0 };
+        cc.visit_block_mut(b);
+        info.closures = cc.n;
         let mut lm = LoopMarker { qual: qual.to_string(), loops: vec![] };
         lm.visit_block_mut(b);
         info.loops = lm.loops;
@@ -946,7 +963,7 @@ fn main() {
                     "orig": orig_text, "extracted": extracted_text, "text": marked_text,
                     "fns": infos.iter().map(|f| json!({"name": f.name, "line": f.line, "loops": f.loops, "has_ret": f.has_ret,
                         "ret_name": f.ret_name, "trait_impl": f.trait_impl, "has_body": f.has_body,
-                        "params": f.params, "generics": f.generics, "where_clause": f.where_clause, "has_mut_ref": f.has_mut_ref})).collect::<Vec<_>>(),
+                        "params": f.params, "generics": f.generics, "where_clause": f.where_clause, "has_mut_ref": f.has_mut_ref, "closures": f.closures})).collect::<Vec<_>>(),
                 }));
             }
         }
